@@ -399,6 +399,27 @@ def rule_stated_rows(F, R):
     R.floor("R-C04-9", n, 2, "program::stack instantiations")
 
 
+def rule_rank_threshold(F, R):
+    """R-C04-10: which equality rows are dependent is decided by the rank-revealing decomposition with its own, machine-precision threshold.
+    Loosening it (`setThreshold(1e-8)` and the like) declares an independent row dependent as soon as its scale is that much below the largest
+    entry of [A|b] - a legitimately restated (rescaled) constraint is then dropped and the relaxed program is solved and reported converged."""
+    fs = [f for f in F.in_file("src/program/util.cpp") if f.name == "reduce" and f.body is not None]
+    n = 0
+    for f in fs:
+        lus = [c for c in f.calls(lambda c: callee(c).split("::")[-1] in ("fullPivLu", "colPivHouseholderQr", "fullPivHouseholderQr", "completeOrthogonalDecomposition"))]
+        for c in lus:
+            n += 1
+        for c in f.calls(lambda c: callee(c).split("::")[-1] == "setThreshold"):
+            a = args(c)
+            ok = bool(a) and pp(a[0]).endswith("Default")
+            R.check(ok, "R-C04-10", "reduce setThreshold@%d" % c["l"], f.loc(c), "the decomposition keeps its default threshold",
+                    "`%s` replaces the machine-precision rank threshold of the decomposition: an independent equality row whose scale is below that fraction of the "
+                    "largest entry of [A|b] is judged dependent and removed - the solver then solves (and reports converged for) a relaxation of the stated program" % pp(c)[:60])
+    R.floor("R-C04-10", n, 1, "rank-revealing decompositions in the equality reduction")
+    if n:
+        R.ok("R-C04-10", "rank decision", "src/program/util.cpp:1", "%d rank-revealing decomposition(s), default threshold" % n)
+
+
 def run(ctx):
     R = ctx.report
     F = ctx.facts(TUS)
@@ -406,6 +427,7 @@ def run(ctx):
     rule_objective_scale(F, R)
     rule_reduce(F, R)
     rule_rows_before_reduction(F, R)
+    rule_rank_threshold(F, R)
     rule_stated_rows(ctx.facts(TUS + ["src/program/benchmark.cpp"]), R)
     rule_guard(F, R)
     rule_kkt(F, R)
